@@ -22,14 +22,14 @@ def member_lines(m, wd, tag):
             "dump 0 out full", "free 0"]
 
 
-def run_groups(V, groups, wd, per_batch=8, variant="rel", timeout=300, workers=12, env=None, pipeline=False):
+def run_groups(V, groups, wd, per_batch=8, variant="rel", timeout=300, workers=12, env=None, pipeline=False, guidetree=False):
     """groups: list of dict(gid, rel, prop, members=[...], [key], [nontrivial]); fills Verdict V"""
     batches = [groups[i:i + per_batch] for i in range(0, len(groups), per_batch)]
 
     def do(bi):
         bwd = os.path.join(wd, "r%d" % bi)
         os.makedirs(bwd, exist_ok=True)
-        lines = ["level 1"]
+        lines = ["level 2" if guidetree else "level 1"]
         for gi, g in enumerate(batches[bi]):
             lines.append("group %s %s %s" % (g["gid"], g["rel"], g["prop"]))
             for mi, m in enumerate(g["members"]):
@@ -38,6 +38,7 @@ def run_groups(V, groups, wd, per_batch=8, variant="rel", timeout=300, workers=1
         try:
             res = kv.run_tlc("RelateTrace", "RelateTrace.cfg", bwd, trace=tp, timeout=900, heap="3g")
             res.pipeline = kv.run_tlc("KalignTrace", "KalignTrace.cfg", bwd, trace=tp, timeout=900, heap="3g", name="pipe") if pipeline else None
+            res.guidetree = kv.run_tlc("GuideTreeTrace", "GuideTreeTrace.cfg", bwd, trace=tp, timeout=900, heap="3g", name="gt") if guidetree else None
         except kv.Broken as e:
             return bi, rc, err, None, str(e)
         return bi, rc, err, res, None
@@ -53,6 +54,12 @@ def run_groups(V, groups, wd, per_batch=8, variant="rel", timeout=300, workers=1
             V.extra["pipeline_events_validated"] = V.extra.get("pipeline_events_validated", 0) + res.pipeline.distinct
             for (ln, sid, items) in res.pipeline.divs:
                 V.divergence("pipeline model, batch %d line %d: %s" % (bi, ln, ",".join(sorted(items))))
+        if getattr(res, "guidetree", None) is not None:
+            V.add_tlc(res.guidetree)
+            nskip = sum(1 for x in res.guidetree.prints if x.startswith('<<"KVSKIP"'))
+            V.extra["upgma_trees_compared_with_model"] = V.extra.get("upgma_trees_compared_with_model", 0) + sum(1 for x in open(os.path.join(bwd, "t.ndjson")) if '"e":"Tree"' in x and '"n":' in x) - nskip
+            for (ln, sid, items) in res.guidetree.divs:
+                V.divergence("guide tree model, batch %d line %d: %s" % (bi, ln, ",".join(sorted(items))))
         failed_g = set()
         for (ln, gid, items) in res.fails:
             failed_g.add(gid)
